@@ -69,6 +69,16 @@ CHECKS = {
               "the listed ones. An independent Python encoder written from the RFCs (all handshake messages, 30+ extension "
               "classes, SSL 2.0) is compared byte for byte with compose() of generated objects and its output parsed back."),
         design='§6 C06', note=CLS_NOTE + " The Spec encoders are a reading of the RFCs (trusted)."),
+    'C15': dict(
+        technique='Lean 4: full statement refuted by kernel-checked witnesses, section-level theorems against the published definition + JA3 from wire bytes (Lean spec and independent Python) vs implementation',
+        text=("ja3() is modelled over the parsed ClientHello; the published definition is written as a Lean function of the "
+              "wire bytes (CpSpec/Ja3.lean). C15_full (ja3 of the parsed object = definition applied to the bytes) is proved "
+              "FALSE with witnesses (GREASE cipher suite kept; SCSV suite dropped) - recorded as known findings because the "
+              "repository's own test pins them. Proved: the elliptic-curve section equals the published rule on the wire "
+              "codes for canonical items, GREASE tables = RFC 8701, no known group/extension code is GREASE. Every generated "
+              "hello is checked four ways (library, model, Lean spec from bytes, Python reference from bytes) and any "
+              "deviation outside the three recorded classes is a violation."),
+        design='§6 C15', note=CLS_NOTE),
     'C10': dict(
         technique='Lean 4 proof (generic linear-search decoding lemmas + kernel-decided obligations on regenerated enum tables) + exhaustive code-space correspondence',
         text=("Theorems for every table, width and code value at once: a strictly decoded code is the first member carrying "
@@ -90,6 +100,16 @@ CHECKS = {
               "via int.to_bytes); their Lean round-trip theorems are listed in the evidence as they are added."),
         design='§6 C11',
         note=COMMON_NOTE + " NATIVE byte order modelled as little-endian. Calendar arithmetic is CPython's."),
+    'C12': dict(
+        technique='Lean 4 proof: invariant preserved by every sequence operation (induction over operation lists) + refinement to a plain Python list + history correspondence on all 43 vector classes',
+        text=("ArrayBase is modelled as a state machine step : VState -> Op -> VState x Out with the byte bookkeeping kept "
+              "incrementally as _update_items_size does. Theorems: step_inv / reachable_inv (itemsSize = sum of item sizes and "
+              "min <= itemsSize <= max in every reachable state), step_refines / reachable_matches_list (accepted edits give "
+              "exactly what a plain list holds, refused edits change nothing and raise NotEnoughData(min)/TooMuchData(max)), "
+              "prefix_fits (composed prefix = body length and fits its width for plain-concatenation vectors; the full "
+              "statement over any framing is refuted with a witness). Random, adversarial and (thorough) exhaustive short "
+              "histories over int and slice positions are applied to the real vector, a plain list and the model."),
+        design='§6 C12', note=COMMON_NOTE + " Item sizes are abstract (what get_item_size returns); indices within ssize_t."),
     'C17': dict(
         technique='Lean 4 proof by kernel decision over the regenerated version table (all pairs and triples) + exhaustive pairwise correspondence',
         text=("Trichotomy, transitivity, irreflexivity, eq/hash consistency, the chain SSL2 < SSL3 < TLS1.0 < 1.1 < 1.2 < every "
